@@ -482,20 +482,20 @@ func (c *Canon) Stream(ss []Stmt) []string {
 		case *If:
 			out = append(out, "IF")
 			out = append(out, c.Expr(x.Cond)...)
-			out = append(out, "{")
+			out = append(out, BlkOpen)
 			out = append(out, c.Stream(x.Then)...)
-			out = append(out, "}", "ELSE", "{")
+			out = append(out, BlkClose, "ELSE", BlkOpen)
 			out = append(out, c.Stream(x.Else)...)
-			out = append(out, "}")
+			out = append(out, BlkClose)
 		case *Either:
 			for i, cs := range x.Cases {
 				if i == 0 {
-					out = append(out, "EITHER", "{")
+					out = append(out, "EITHER", BlkOpen)
 				} else {
-					out = append(out, "OR", "{")
+					out = append(out, "OR", BlkOpen)
 				}
 				out = append(out, c.Stream(cs)...)
-				out = append(out, "}")
+				out = append(out, BlkClose)
 			}
 		case *With:
 			for _, d := range x.Decls {
